@@ -75,6 +75,9 @@ Sensitivity (tools/mut.py, quick tier, all CAUGHT):
   viscosity_models.py   reference: (1/T - 1/Tref) -> (1/Tref - 1/T)           -> visc/mono_T
   radiogenic_models.py  `total_specific_heating += ` -> `total_specific_heating = ` (dropped accumulation) -> radio/additive
   melting_models.py     henning `(melt_fraction_shape <= 0.) * premelt_viscosity` -> `... < 0.` -> melt/henning_zero
+  viscosity_models.py   arrhenius `(E + P V)/(T R)` -> `(E - P V)/(T R)` (sign of the pressure term)   -> visc/mono_T
+Both proposed repairs (out/proposed-fix-C19-1.diff, -2.diff) applied to a scratch copy make the two known findings
+disappear and leave every other clause green (tools/mut.py --patch, 6 000 cases).
 """
 import math
 import sys
@@ -271,7 +274,7 @@ def _s_melt_henning():
     return st.fixed_dictionaries({
         'family': st.just('melt_henning'), 'array': BOOL, 'phis': st.lists(PHI, min_size=2, max_size=6),
         'T_mode': st.sampled_from(['linked', 'linked', 'free']), 'T_free': st.floats(0.5, 1.5),
-        'eta_liq': logu(1e-3, 1e4), 'eta_decades': weighted((st.floats(0.0, 25.0), 2), (st.floats(5.0, 25.0), 3), (st.just(0.0), 1)),
+        'eta_liq': logu(1e-3, 1e4), 'eta_decades': weighted((st.floats(0.01, 25.0), 3), (st.floats(5.0, 25.0), 4), (st.just(0.0), 1)),
         'mu_pre': logu(1e7, 1e12), 'mu_liq': logu(1e-8, 1e2), 'solidus': st.floats(150.0, 3000.0),
         'melt_range': st.floats(1.0, 1500.0), 'crit': st.floats(0.05, 0.8), 'width': st.floats(0.001, 0.15),
         'visc_slope_1': st.floats(0.0, 40.0), 'visc_falloff': st.floats(0.0, 700.0),
